@@ -70,8 +70,12 @@ def snap_case(rng, tid, d):
     if empty:
         write_input(out, rng, tps, 3)
         write_input(out2, rng, tps, 2)
-    _quiet(lambda: snap_command(inp, out, tps, force=True))
-    _quiet(lambda: snap_command(out, out2, tps, force=True))
+    if tid % 2:          # every other case through the command line (`eudoxia tools snap IN OUT TPS -f`)
+        common.cli(["tools", "snap", inp, out, str(tps), "-f"])
+        common.cli(["tools", "snap", out, out2, str(tps), "-f"])
+    else:
+        _quiet(lambda: snap_command(inp, out, tps, force=True))
+        _quiet(lambda: snap_command(out, out2, tps, force=True))
     ri, ro, ro2 = read_rows(inp), read_rows(out), read_rows(out2)
     cert = [math.floor(F(Decimal(r["text"])) * tps) if r["text"].strip() else 0 for r in ri]
     strip = lambda rows: [{"pid": r["pid"], "arr": r["arr"], "rest": r["rest"]} for r in rows]
@@ -93,8 +97,12 @@ def jitter_case(rng, tid, d):
     if empty:
         write_input(out, rng, tps, 3)
         write_input(out2, rng, tps, 3)
-    _quiet(lambda: jitter_command(inp, out, float(delta), seed=seed, force=True))
-    _quiet(lambda: jitter_command(inp, out2, float(delta), seed=seed, force=True))
+    if tid % 2 and seed is not None:          # every other seeded case through the command line (`eudoxia tools jitter IN OUT DELTA -s SEED -f`)
+        common.cli(["tools", "jitter", inp, out, repr(float(delta)), "-s", str(seed), "-f"])
+        common.cli(["tools", "jitter", inp, out2, repr(float(delta)), "--seed", str(seed), "-f"])
+    else:
+        _quiet(lambda: jitter_command(inp, out, float(delta), seed=seed, force=True))
+        _quiet(lambda: jitter_command(inp, out2, float(delta), seed=seed, force=True))
     ri, ro = read_rows(inp), read_rows(out)
     same = os.path.exists(out2) and open(out).read() == open(out2).read()
     # match output rows to input rows by (pipeline id, position inside the pipeline)
@@ -194,14 +202,54 @@ def sample_case(rng, tid, d):
                     tools._sensitivity_task(tools.SensitivityTask(workload_index=i, params_file=pfile, output_dir=outdir, seed=start + 1000 + i, jitter_seed=None))
                 finally:
                     sys.stdout, sys.stderr = so, se
-        for i in range(n):
-            task = tools.SensitivityTask(workload_index=i, params_file=pfile, output_dir=outdir, seed=start + i, jitter_seed=None)
+        if tid % 3:
+            # the command itself (`eudoxia tools sensitivity-sample P DIR N --start-seed S`): it numbers the samples and derives their seeds.
+            # Its process pool is replaced by a sequential stand-in (a worker of the harness's own pool may not have children)
+            class _SeqPool:
+                def __init__(self, *a, **k):
+                    pass
+
+                def __enter__(self):
+                    return self
+
+                def __exit__(self, *a):
+                    return False
+
+                def map(self, fn, items):
+                    out = []
+                    for it in items:
+                        try:
+                            out.append(fn(it))
+                        finally:
+                            sys.stdout, sys.stderr = so_cli[0], so_cli[1]          # the task rebinds both and never restores them
+                    return out
+            real_mp = tools.multiprocessing
+            shim = type("mp_shim", (), {"Pool": _SeqPool})
+            tools.multiprocessing = shim
             try:
-                tools._sensitivity_task(task)
+                import io as _io
+                so_cli = [_io.StringIO(), _io.StringIO()]
+                sys.stdout, sys.stderr = so_cli
+                try:
+                    if tid % 2:
+                        from eudoxia.__main__ import main as _main
+                        try:
+                            _main(["tools", "sensitivity-sample", pfile, outdir, str(n), "--start-seed", str(start)])
+                        except SystemExit:
+                            pass
+                    else:
+                        tools.sensitivity_sample_command(pfile, outdir, n, start_seed=start)
+                finally:
+                    sys.stdout, sys.stderr = so, se
             finally:
-                sys.stdout, sys.stderr = so, se          # the task rebinds both and never restores them
-            with open(f"{outdir}/w{i}.csv") as f:
-                digests.append(hashlib.sha256(f.read().encode()).hexdigest()[:16])
+                tools.multiprocessing = real_mp
+        else:
+            for i in range(n):
+                task = tools.SensitivityTask(workload_index=i, params_file=pfile, output_dir=outdir, seed=start + i, jitter_seed=None)
+                try:
+                    tools._sensitivity_task(task)
+                finally:
+                    sys.stdout, sys.stderr = so, se          # the task rebinds both and never restores them
     finally:
         tools.sensitivity_command = real
         sys.stdout, sys.stderr = so, se
@@ -219,6 +267,9 @@ def sample_case(rng, tid, d):
     # the real task writes through a text file handle too; normalise line ends the same way
     digests = []
     for i in range(n):
+        if not os.path.exists(f"{outdir}/w{i}.csv"):
+            digests.append(f"sample {i} was not written")
+            continue
         with open(f"{outdir}/w{i}.csv", newline="") as f:
             digests.append(hashlib.sha256(f.read().replace("\r\n", "\n").encode()).hexdigest()[:16])
     import shutil
